@@ -363,8 +363,13 @@ PROPS = {
             # against stall / clear / signal / shutdown; "blocked" is observed exactly (hand-polled future, waker not called)
             {"name": "stallwait", "harness": "stall", "driver": "stall", "quick_cases": 1500, "thorough_cases": 60000,
              "nontrivial": lambda lines: any(l.startswith("await") for l in lines) and any(l in ("clear", "signal", "shutdown") for l in lines)},
+            # store level, default stall thresholds: commits interleaved with checkpoints (foreground flushes); every call returns
+            {"name": "bgwork", "harness": "bgwork", "driver": "bgwork", "quick_cases": 40, "thorough_cases": 600,
+             "nontrivial": lambda lines: sum(l == "ckpt" for l in lines) >= 3, "timeout": 3000},
         ],
-        "rule": "(stallwait) 3 committers in WriteStallController::check, 8-30 (thorough 8-60) steps per case over register / read / "
+        "rule": "(bgwork) a real Tree with the default stall thresholds (L0: 12 tables, compaction trigger 4) and a 16/64 KiB memtable: "
+                "30-160 (thorough 40-400) commits of 1-60 keys interleaved with create_checkpoint (after every 2nd to 9th commit), point reads "
+                "and reopen; every call must return within 20 s and answer like the map. (stallwait) 3 committers in WriteStallController::check, 8-30 (thorough 8-60) steps per case over register / read / "
                 "await of a committer and stall / clear / signal / shutdown of the environment, half of them the natural next step "
                 "of a random committer, 8% possibly inapplicable; every step's outcome (reg, wait/ok/err, woken/blocked, noop) "
                 "compared with the model, and `blocked` with the specification (only while a signal is owed or the condition "
